@@ -68,7 +68,7 @@ pub fn decode(u: &mut Bytes) -> Case {
         change: [0u8, 0, 0, 1, 2][u.choice(5)],
         // later additions come from the tail (committed replays keep their meaning; all-zero = the original fixed rules)
         params: [u.tail_u8(), u.tail_u8(), u.tail_u8(), u.tail_u8(), u.tail_u8(), u.tail_u8()],
-        probe: [0u8, 0, 1, 2, 3, 4, 4][u.tail_choice(7)],
+        probe: [0u8, 0, 1, 2, 3, 4, 4, 5, 5][u.tail_choice(9)],
         probe_k: 1 + u.tail_choice(3) as u8,
     }
 }
@@ -86,6 +86,8 @@ enum Change {
     ThresholdZero,
     ThresholdHuge,
     Probe(u8, u8),
+    /// exactly one parameter of the first rule gets another (valid) value; which one is chosen by the byte
+    OneField(u8),
 }
 
 /// the rules of the resource under test: fresh objects (fresh ids) on every call
@@ -120,6 +122,29 @@ fn flow_rules(case: &Case, res: &str, change: Change) -> Vec<Arc<flow::Rule>> {
         Change::Probe(1, k) => v[0] = flow::Rule { threshold: k as f64, stat_interval_ms: if kind == 1 { v[0].stat_interval_ms } else { 1000 }, ..base },
         Change::Probe(2, _) => v[0] = flow::Rule { threshold: 1.0, control_strategy: flow::ControlStrategy::Throttling, max_queueing_time_ms: 0, stat_interval_ms: 1000, ..base },
         Change::Probe(_, _) => v[0] = flow::Rule { threshold: 30.0, calculate_strategy: flow::CalculateStrategy::WarmUp, warm_up_period_sec: 10, warm_up_cold_factor: 3, ..base },
+        Change::OneField(b) => {
+            let r = &mut v[0];
+            match kind {
+                0 => match b % 2 {
+                    0 => r.threshold += 1.0,
+                    _ => r.stat_interval_ms = if r.stat_interval_ms == 2000 { 5000 } else { 2000 },
+                },
+                1 => match b % 2 {
+                    0 => r.threshold += 1.0,
+                    _ => r.stat_interval_ms = if r.stat_interval_ms == 700 { 300 } else { 700 },
+                },
+                2 => match b % 3 {
+                    0 => r.threshold *= 2.0,
+                    1 => r.stat_interval_ms = match r.stat_interval_ms { 1000 => 100, 100 => 1000, _ => 1000 },
+                    _ => r.max_queueing_time_ms = if r.max_queueing_time_ms == 0 { 500 } else { 0 },
+                },
+                _ => match b % 3 {
+                    0 => r.threshold = if r.threshold == 30.0 { 60.0 } else { 30.0 },
+                    1 => r.warm_up_period_sec += 2,
+                    _ => r.warm_up_cold_factor = if r.warm_up_cold_factor == 5 { 3 } else { 5 },
+                },
+            }
+        }
     }
     v.into_iter().map(Arc::new).collect()
 }
@@ -173,6 +198,32 @@ fn hot_rules(case: &Case, res: &str, change: Change) -> Vec<Arc<hotspot::Rule>> 
             r.specific_items.insert("p".to_string(), 0);
             v[0] = r;
         }
+        Change::OneField(b) => {
+            let r = &mut v[0];
+            match kind {
+                4 => match b % 4 {
+                    0 => r.threshold += 1,
+                    1 => r.burst_count += 1,
+                    2 => r.duration_in_sec = if r.duration_in_sec == 1 { 2 } else { 1 },
+                    _ => {
+                        let t = r.threshold + 2;
+                        r.specific_items.insert("p".to_string(), t);
+                    }
+                },
+                5 => match b % 3 {
+                    0 => r.threshold *= 2,
+                    1 => r.max_queueing_time_ms = if r.max_queueing_time_ms == 0 { 300 } else { 0 },
+                    _ => r.duration_in_sec = if r.duration_in_sec == 1 { 2 } else { 1 },
+                },
+                _ => match b % 2 {
+                    0 => r.threshold += 1,
+                    _ => {
+                        let t = r.threshold + 2;
+                        r.specific_items.insert("p".to_string(), t);
+                    }
+                },
+            }
+        }
     }
     v.into_iter().map(Arc::new).collect()
 }
@@ -197,7 +248,7 @@ fn cb_rules(case: &Case, res: &str, change: Change) -> Vec<Arc<cb::Rule>> {
         v.push(cb::Rule { strategy: cb::BreakerStrategy::ErrorRatio, threshold: 0.75, stat_sliding_window_bucket_count: 2, ..base.clone() });
     }
     match change {
-        Change::None | Change::ThresholdZero => {}
+        Change::None | Change::ThresholdZero | Change::OneField(_) => {}
         Change::ThresholdHuge => v[0].threshold = 1e9,
         Change::Probe(_, k) => v[0] = cb::Rule { strategy: cb::BreakerStrategy::ErrorCount, threshold: k as f64, min_request_amount: 1, retry_timeout_ms: 5000, stat_interval_ms: 1000, resource: res.into(), ..Default::default() },
     }
@@ -379,6 +430,19 @@ fn run(case: &Case, reload: bool, change: Change) -> Run {
     Run { obs, ptr_kept, next_after_change, live_at_reload }
 }
 
+/// Do two rules differ in any parameter (the id apart)? Judged on the serialised fields, NOT with the library's own rule
+/// equality - a reload that the library wrongly takes for "equal" is exactly what the probes are after.
+fn params_differ<T: serde::Serialize>(a: &T, b: &T) -> bool {
+    let strip = |x: &T| {
+        let mut v = serde_json::to_value(x).unwrap_or(serde_json::Value::Null);
+        if let Some(o) = v.as_object_mut() {
+            o.remove("id");
+        }
+        v
+    };
+    strip(a) != strip(b)
+}
+
 /// The first rule is replaced by a DIFFERENT rule at the reload; a probe burst right after it judges whether the new
 /// rule is the one in force ("takes effect on the very next entry"), with bounds that hold whether or not the
 /// implementation carries statistics over to the new rule.
@@ -433,13 +497,17 @@ fn run_probe(case: &Case) -> Result<&'static str, (String, String)> {
     if case.probe == 4 {
         return there_and_back(case, &res, &other, &third);
     }
+    if case.probe == 5 {
+        let elapsed: u64 = case.steps.iter().take(case.reload_at).map(|s| s.dt).sum();
+        return one_field(case, &res, &other, &third, elapsed);
+    }
     let k = case.probe_k as u32;
     let change = Change::Probe(case.probe, case.probe_k);
     // is the replacement really a different rule?
     let differs = match case.kind {
-        0..=3 => flow_rules(case, &res, Change::None)[0] != flow_rules(case, &res, change)[0],
-        4..=6 => hot_rules(case, &res, Change::None)[0] != hot_rules(case, &res, change)[0],
-        _ => cb_rules(case, &res, Change::None)[0] != cb_rules(case, &res, change)[0],
+        0..=3 => params_differ(&*flow_rules(case, &res, Change::None)[0], &*flow_rules(case, &res, change)[0]),
+        4..=6 => params_differ(&*hot_rules(case, &res, Change::None)[0], &*hot_rules(case, &res, change)[0]),
+        _ => params_differ(&*cb_rules(case, &res, Change::None)[0], &*cb_rules(case, &res, change)[0]),
     };
     if !differs {
         return Ok("probe-rule-equal-to-old");
@@ -693,6 +761,73 @@ fn there_and_back(case: &Case, res: &String, other: &String, third: &String) -> 
     }
 }
 
+/// the fixed probe script of the one-field mode: (ms since the previous request, value index, hold the entry open)
+const PROBE_SCRIPT: [(u64, usize, bool); 12] = [(0, 0, true), (0, 0, true), (0, 0, true), (0, 0, true), (50, 0, false), (50, 1, false), (100, 0, false), (300, 0, false), (500, 0, false), (1, 0, false), (1000, 0, false), (0, 0, false)];
+
+fn probe_script(res: &String, warm_up: bool) -> Vec<String> {
+    let mut obs = Vec::new();
+    let mut held = OpenEntries::new();
+    for (dt, v, hold) in PROBE_SCRIPT {
+        clock::advance_ms(dt);
+        let before = clock::now_ns();
+        let n = if warm_up { 25 } else { 1 };
+        let mut adm = 0;
+        for _ in 0..n {
+            let mut req = Req::new(res, 1);
+            req.args = Some(vec![VALUES[v].to_string()]);
+            if let Ok(e) = build(req) {
+                adm += 1;
+                if hold {
+                    held.push(e);
+                } else {
+                    e.exit();
+                }
+            }
+        }
+        obs.push(format!("adm={} waited={}", adm, clock::now_ns() - before));
+    }
+    drop(held);
+    obs
+}
+
+/// "One field": after the history everything is left idle for 30 s (every window, bucket, schedule and warm-up state has
+/// expired by then), one parameter of the first rule is changed by the reload, and a fixed probe script runs. The same
+/// script on a fresh resource on which the changed rule was loaded from the start, at the same clock phase, must see the
+/// same decisions and waits - whatever the implementation carries over, nothing is left to carry.
+fn one_field(case: &Case, res: &String, other: &String, third: &String, elapsed: u64) -> Result<&'static str, (String, String)> {
+    if case.kind == 7 {
+        return Ok("probe-not-applicable");
+    }
+    let change = Change::OneField(case.params[5]);
+    let differs = match case.kind {
+        0..=3 => params_differ(&*flow_rules(case, res, Change::None)[0], &*flow_rules(case, res, change)[0]),
+        _ => params_differ(&*hot_rules(case, res, Change::None)[0], &*hot_rules(case, res, change)[0]),
+    };
+    if !differs {
+        return Ok("probe-rule-equal-to-old");
+    }
+    clock::advance_ms(30_000);
+    load(case, res, other, third, true, change);
+    let a = probe_script(res, case.kind == 3);
+    // reference: fresh resources, the changed rule from the start, same phase of every bucket
+    util::reset_all();
+    let t0 = (clock::now_ms() / 210_000 + 2) * 210_000;
+    clock::set_ms(t0);
+    let (res2, other2, third2) = (util::fresh_name("c11q"), util::fresh_name("c11qo"), util::fresh_name("c11qt"));
+    load(case, &res2, &other2, &third2, false, change);
+    clock::advance_ms(elapsed + 30_000);
+    let b = probe_script(&res2, case.kind == 3);
+    if a != b {
+        let i = a.iter().zip(b.iter()).position(|(x, y)| x != y).unwrap_or(0);
+        let what = match case.kind {
+            0..=3 => format!("{:?} -> {:?}", flow_rules(case, res, Change::None)[0], flow_rules(case, res, change)[0]),
+            _ => format!("{:?} -> {:?}", hot_rules(case, res, Change::None)[0], hot_rules(case, res, change)[0]),
+        };
+        return Err(("changed-rule-not-applied".into(), format!("one parameter changed by the reload ({}); after 30 s without traffic the probe script sees {:?} at step {} where a fresh resource under the changed rule sees {:?} (all: {:?} vs {:?})", what, a.get(i), i, b.get(i), a, b)));
+    }
+    Ok("one-field-change")
+}
+
 impl Property for C11 {
     fn id(&self) -> &'static str {
         "C11"
@@ -704,7 +839,7 @@ impl Property for C11 {
         }
     }
     fn rule(&self) -> String {
-        "bytes -> scenario (flow reject on the global window / on a private 700 ms window, flow throttling, flow warm-up, hotspot QPS reject, hotspot QPS throttling, hotspot concurrency, circuit breaker), optionally a second rule on the same resource, a script of 4-33 steps (clock advance from a menu; request with batch/value, exit oldest open entry ok / with error), a reload position, reload through load_rules (with the unrelated resource kept / removed / changed / another added in the same call) or load_rules_of_resource, rules re-created with fresh ids and optionally reversed order; differential oracle: the observation sequence (admitted, block type, time slept, breaker states) of the run with the reload equals that of the run without it at the same virtual instants on fresh resources, and the controllers / breakers are the same objects (Arc::ptr_eq) before and after; changed rule: threshold -> 0 => the next request is rejected, threshold -> 1e9 => admitted; there and back (2 cases in 7): one reload raises the threshold out of reach, the next loads the original rules again (independently chosen entry points), then the original rule is probed; replaced rule (3 cases in 7): the first rule is replaced by a different one (flow -> Reject(k) / Throttling 1 per s / WarmUp 30, hotspot -> QPS Reject(k) / Concurrency(k) / override 0 for a value, breaker -> ErrorCount(k)) and a probe burst right after the reload must show the new rule in force, with bounds that hold whether or not statistics are carried over; rule parameters (thresholds, intervals, bursts, queueing times, override tables, breaker strategies) come from menus; non-trivial = the reload happens after at least one admission and the remainder of the run contains a rejection, a wait or a non-closed breaker state; distinct = distinct decoded cases".into()
+        "bytes -> scenario (flow reject on the global window / on a private 700 ms window, flow throttling, flow warm-up, hotspot QPS reject, hotspot QPS throttling, hotspot concurrency, circuit breaker), optionally a second rule on the same resource, a script of 4-33 steps (clock advance from a menu; request with batch/value, exit oldest open entry ok / with error), a reload position, reload through load_rules (with the unrelated resource kept / removed / changed / another added in the same call) or load_rules_of_resource, rules re-created with fresh ids and optionally reversed order; differential oracle: the observation sequence (admitted, block type, time slept, breaker states) of the run with the reload equals that of the run without it at the same virtual instants on fresh resources, and the controllers / breakers are the same objects (Arc::ptr_eq) before and after; changed rule: threshold -> 0 => the next request is rejected, threshold -> 1e9 => admitted; one field (2 cases in 9): after 30 s without traffic exactly one parameter of the first flow / hotspot rule is changed by the reload and a fixed probe script must see what a fresh resource under the changed rule sees at the same clock phase; there and back (2 cases in 9): one reload raises the threshold out of reach, the next loads the original rules again (independently chosen entry points), then the original rule is probed; replaced rule (3 cases in 9): the first rule is replaced by a different one (flow -> Reject(k) / Throttling 1 per s / WarmUp 30, hotspot -> QPS Reject(k) / Concurrency(k) / override 0 for a value, breaker -> ErrorCount(k)) and a probe burst right after the reload must show the new rule in force, with bounds that hold whether or not statistics are carried over; rule parameters (thresholds, intervals, bursts, queueing times, override tables, breaker strategies) come from menus; non-trivial = the reload happens after at least one admission and the remainder of the run contains a rejection, a wait or a non-closed breaker state; distinct = distinct decoded cases".into()
     }
     fn assumptions(&self) -> Vec<String> {
         vec![
